@@ -99,6 +99,17 @@ INNER_SET = {'invariant': {
     'copied': 'forall(lambda k: implies(0 <= k and k < j, d.eq_active[k] == bool_of_num(state[entry(adr) + k])))',
     'rest': 'forall(lambda k: implies(k < 0 or k >= j, d.eq_active[k] == entry(d.eq_active[k])))',
 }}
+# second formulations that do not name the loop-bound temporary (so a rewritten loop header still binds)
+INNER_GET2 = {'invariant': {
+    'j': '0 <= j and j <= m.neq',
+    'copied': 'forall(lambda k: implies(0 <= k and k < j, state[entry(adr) + k] == num_of_int(d.eq_active[k])))',
+    'rest': 'forall(lambda k: implies(k < entry(adr) or k >= entry(adr) + j, state[k] == entry(state[k])))',
+}}
+INNER_SET2 = {'invariant': {
+    'j': '0 <= j and j <= m.neq',
+    'copied': 'forall(lambda k: implies(0 <= k and k < j, d.eq_active[k] == bool_of_num(state[entry(adr) + k])))',
+    'rest': 'forall(lambda k: implies(k < 0 or k >= j, d.eq_active[k] == entry(d.eq_active[k])))',
+}}
 INNER_COPY = {'invariant': {
     'j': '0 <= j and j <= neq and neq == m.neq',
     'copied': 'forall(lambda k: implies(0 <= k and k < j, dst.eq_active[k] == src.eq_active[k]))',
@@ -180,7 +191,7 @@ CONTRACTS = {
         'assigns': ['state[*]'],
         'ensures': get_ensures('state', 'sig', 'd'),
         'error_only_if': 'not (%s)' % SIG_OK,
-        'loops': {0: cut(get_inv), 1: INNER_GET},
+        'loops': {0: cut(get_inv), 1: [INNER_GET, INNER_GET2]},
     },
     'mj_setState': {
         'requires': REQ,
@@ -188,7 +199,7 @@ CONTRACTS = {
         'assigns': SET_ASSIGNS,
         'ensures': set_ensures('state', 'sig', 'd'),
         'error_only_if': 'not (%s)' % SIG_OK,
-        'loops': {0: cut(set_inv), 1: INNER_SET},
+        'loops': {0: cut(set_inv), 1: [INNER_SET, INNER_SET2]},
     },
     'mj_copyState': {
         'requires': REQ,
